@@ -202,7 +202,7 @@ func TestVerifWitness_DP16(t *testing.T) {
 	select {
 	case <-done:
 		s.Close()
-	case <-time.After(30 * time.Second):
-		t.Fatalf("changing the primary translate store while a replication is running did not return within 30s (deadlock on TranslateFile.mu)")
+	case <-time.After(10 * time.Second):
+		t.Fatalf("changing the primary translate store while a replication is running did not return within 10s (deadlock on TranslateFile.mu)")
 	}
 }
